@@ -611,6 +611,7 @@ impl Transformer {
             self.context.real_svg = true;
             (input.into(), None)
         } else {
+            input.check_entities_predefined()?;
             process_events(input, &mut self.context)?
         };
         self.postprocess(output, writer)
